@@ -94,6 +94,8 @@ pub(crate) enum Scn {
     NewProofSampled,
     NewProofShort,
     ReorgProof,
+    /// proven peer, the announcement of a last state far ahead (sampled path) is pending
+    NewLastState,
     MatchedBlocksProof,
     MatchedBlocks,
     FetchProofs,
@@ -104,7 +106,7 @@ pub(crate) enum Scn {
     UnminedProof,
 }
 
-pub(crate) const ALL_SCN: [Scn; 13] = [
+pub(crate) const ALL_SCN: [Scn; 14] = [
     Scn::NoPeer,
     Scn::Connected,
     Scn::FirstProof,
@@ -112,6 +114,7 @@ pub(crate) const ALL_SCN: [Scn; 13] = [
     Scn::NewProofSampled,
     Scn::NewProofShort,
     Scn::ReorgProof,
+    Scn::NewLastState,
     Scn::MatchedBlocksProof,
     Scn::MatchedBlocks,
     Scn::FetchProofs,
@@ -211,6 +214,12 @@ pub(crate) fn try_build_with(env: &Env, w: &Worlds, p: &Params, scn: Scn, old: O
             sim.cm().tick_lc(0);
             sim.pump_out();
             advance_until(&mut sim, is("SendLastStateProof"), 0, 10)
+        }
+        Scn::NewLastState => {
+            assert!(scen::prove_peer(&mut sim, 1));
+            sim.queue.clear();
+            sim.set_view(1, 0, p.h_sampled, true);
+            return Ok((sim, 1));
         }
         Scn::MatchedBlocksProof => {
             sim.connect(1);
@@ -435,6 +444,19 @@ impl<'a> Sweep<'a> {
                 mutate::bit_flips(&home.data, |m| muts.push(m));
             }
             muts.extend(mutate::structural(&home.proto, &home.data));
+            // total difficulties next to what the client trusts already (stored and proven)
+            if home.proto == Proto::LightClient {
+                let mut bases: Vec<ckb_types::U256> = vec![sim.c().storage.get_last_state().0];
+                for (_, ps) in sim.c().peers.get_all_prove_states() {
+                    let td = ps.get_last_header().total_difficulty();
+                    if !bases.contains(&td) {
+                        bases.push(td);
+                    }
+                }
+                let tv = mutate::td_variants(&self.env.consensus, &home.data, &bases);
+                self.report.count("relative_total_difficulty_mutants", tv.len() as u64);
+                muts.extend(tv);
+            }
             for m in muts {
                 go!(&home.proto, home.peer, m.data.clone(), &m.label);
                 if home.proto == Proto::LightClient {
